@@ -1,6 +1,10 @@
 package main
 
 import (
+	"sync"
+
+	"verif/smt"
+
 	"crypto/sha1"
 	"encoding/json"
 	"fmt"
@@ -140,6 +144,8 @@ func regoC01(c *checkCtx) {
 	var progs []regosym.Program
 	progs = append(progs, regosym.FamilyAtoms(thorough)...)
 	progs = append(progs, regosym.FamilyQuantified(thorough)...)
+	progs = append(progs, regosym.FamilyNestedAtoms(thorough)...)
+	progs = append(progs, regosym.FamilyAtomPaths(thorough)...)
 	if thorough {
 		progs = append(progs, regosym.FamilySkeletons(2)...)
 		var ks []int
@@ -152,13 +158,79 @@ func regoC01(c *checkCtx) {
 		progs = append(progs, regosym.FamilyVariableIndex([]int{1, 11, 12, 22, 23, 24, 25, 26})...)
 	}
 	c.evidence["bounds_regosym"] = map[string]any{"nodes": n, "values_per_property": 2, "classes": "classes mentioned + 1", "literal_pool": "<= 4 literals derived from the program's constants + references to each node + one dangling reference",
-		"families": "atoms (every documented atomic constraint alone / under not / in or / in if-then), quantified (nested, atLeast/atMost 0..2 around small inner formulas, positive and negated), connective skeletons as YAML, variable-index (a nested-in-nested constraint whose outer quantified variable is the k-th of its validation)"}
+		"families": "atoms (every documented atomic constraint alone / under not / in or / in if-then), atoms below nested/atLeast/atMost in positive and negative positions, atoms on composite paths (sequence, alternative, inverse, @type), quantified (nested, atLeast/atMost 0..2 around small inner formulas, positive and negated), connective skeletons as YAML, variable-index (a nested-in-nested constraint whose outer quantified variable is the k-th of its validation)"}
 	outs, err := runPrograms(regoWork(c), progs, func(p regosym.Program) regosym.Scope { return regosym.ScopeFor(p, n, 2, 4) }, c.knownSignatures("C01.verdict-eq-reference"), 16)
 	if err != nil {
 		c.inconclusive("regosym: " + err.Error())
 		return
 	}
 	c.absorb(outs, "C01.verdict-eq-reference")
+	if thorough {
+		regoDifferential(c, progs, 9, 40)
+	} else {
+		regoDifferential(c, progs, 23, 12)
+	}
+}
+
+// regoDifferential validates the Rego model itself (not the property): for every step-th program,
+// pseudo-randomly spread graphs of the scope are validated through the real entry point and the
+// real results must equal regosym's prediction. A disagreement makes the check inconclusive.
+func regoDifferential(c *checkCtx, progs []regosym.Program, step, graphs int) {
+	drv, err := regosym.BuildDriver(repoDir, verifDir(), regoWork(c))
+	if err != nil {
+		c.inconclusive("regosym: " + err.Error())
+		return
+	}
+	var sel []regosym.Program
+	for i, p := range progs {
+		if i%step == 0 {
+			sel = append(sel, p)
+		}
+	}
+	texts := make([]string, len(sel))
+	for i, p := range sel {
+		texts[i] = p.ProfileYAML()
+	}
+	gens, err := drv.Generate(texts)
+	if err != nil {
+		c.inconclusive("regosym: " + err.Error())
+		return
+	}
+	var mu sync.Mutex
+	var wg sync.WaitGroup
+	jobs := make(chan int, len(sel))
+	for i := range sel {
+		jobs <- i
+	}
+	close(jobs)
+	total := 0
+	for w := 0; w < 16; w++ {
+		wg.Add(1)
+		go func() {
+			defer wg.Done()
+			s, err := smt.NewSolver("z3")
+			if err != nil {
+				return
+			}
+			defer s.Close()
+			ck := &regosym.Checker{Drv: drv, Solver: s}
+			for i := range jobs {
+				if gens[i].Error != "" {
+					continue
+				}
+				n, msg := ck.Differential(sel[i], regosym.ScopeFor(sel[i], 3, 2, 4), gens[i].Code, graphs, false)
+				mu.Lock()
+				total += n
+				if msg != "" {
+					c.inconclusive(fmt.Sprintf("regosym disagrees with the real implementation on program %q: %s", regosym.DescribeProgram(sel[i]), firstLine(msg)))
+				}
+				mu.Unlock()
+			}
+		}()
+	}
+	wg.Wait()
+	c.replayed += total
+	c.evidence["regosym_differential"] = map[string]any{"programs": len(sel), "graphs_validated_through_the_real_entry_point": total, "rule": "pseudo-randomly spread graphs of the scope; real results must equal regosym's prediction"}
 }
 
 // regoC02: the generated path rule denotes composition / union / converse, for every path
